@@ -51,6 +51,8 @@ type poolTracker struct {
 	gids []int64
 	nUse int // Use events recorded by Used in the current scenario
 	gate atomic.Pointer[useGate]
+	// family H: accesses of the library to a message it has handed to a waiting caller (c12_handover.go)
+	hgate atomic.Pointer[handoverGate]
 }
 
 func (t *poolTracker) setGate(g *useGate) { t.gate.Store(g) }
@@ -268,6 +270,9 @@ func (t *poolTracker) Recycled(p *pool.Pool, m *pool.Message) {
 func (t *poolTracker) Reacquired(p *pool.Pool, m *pool.Message) {
 	ok := m.VerifPoisoned()
 	m.VerifUnpoison()
+	if h := t.hgate.Load(); h != nil {
+		h.reacquired(m)
+	}
 	t.mu.Lock()
 	if t.skip(p) {
 		t.mu.Unlock()
@@ -333,6 +338,9 @@ func (t *poolTracker) AppRel(m *pool.Message) {
 func (t *poolTracker) Used(m *pool.Message) {
 	if g := t.gate.Load(); g != nil && g.m == m {
 		g.arrive() // family G: the n-th access of a foreign goroutine to this message waits here for the script
+	}
+	if h := t.hgate.Load(); h != nil {
+		h.arrive(m) // family H: an access of the library to a message it has handed over waits for the caller's release
 	}
 	t.mu.Lock()
 	if id, ok := t.ids[m]; ok {
